@@ -56,6 +56,8 @@ pub struct Rec {
     pub m03: Option<bool>,
     #[serde(default)]
     pub m09: Option<bool>,
+    #[serde(default)]
+    pub m19: Option<bool>,
 }
 
 #[derive(Clone, Debug, Serialize, Deserialize, PartialEq)]
@@ -1551,4 +1553,61 @@ pub fn check_c04(prog: &Program, built: &Built, rng: &mut StdRng, fs: &mut Forge
             }
         }
     }
+}
+
+// ---------------------------------------------------------------------------------------------
+// C18: canonical digest of everything a prover and a verifier must agree on
+// ---------------------------------------------------------------------------------------------
+fn fnv(s: &str) -> u64 {
+    let mut h: u64 = 0xcbf29ce484222325;
+    for b in s.bytes() {
+        h ^= b as u64;
+        h = h.wrapping_mul(0x100000001b3);
+    }
+    h
+}
+
+/// Canonical description of the compiled circuit and of its verifying data: op list, witness
+/// numbering (expr -> slot), input rows, preprocessed columns, table order / degrees,
+/// preprocessed commitment.  Hash containers are serialised in sorted order: the digest depends
+/// on their content, never on their iteration order.
+pub fn digest(built: &Built, packing: &TablePacking) -> Result<(u64, Vec<(String, u64)>), String> {
+    let c = &built.circuit;
+    let mut parts: Vec<(String, u64)> = Vec::new();
+    parts.push(("ops".into(), fnv(&circuit_json(c).to_string())));
+    let mut e2w: Vec<(u32, u32)> = c.expr_to_widx.iter().map(|(e, w)| (e.0, w.0)).collect();
+    e2w.sort();
+    parts.push(("expr_to_widx".into(), fnv(&format!("{e2w:?}"))));
+    let pre = c.generate_preprocessed_columns::<1>().map_err(|e| format!("{e:?}"))?;
+    let mut dup: Vec<(String, Vec<bool>)> = pre.dup_npo_outputs.iter().map(|(k, v)| (k.as_str().to_string(), v.clone())).collect();
+    dup.sort();
+    let mut hints: Vec<u32> = pre.hint_output_wids.iter().copied().collect();
+    hints.sort();
+    parts.push(("preprocessed_columns".into(), fnv(&format!("{:?}|{:?}|{dup:?}|{hints:?}", pre.primitive, pre.ext_reads))));
+    let r = catch_unwind(AssertUnwindSafe(|| {
+        get_airs_and_degrees_with_prep::<BabyBearConfig, _, 1>(c, packing, &[], &[], ConstraintProfile::Standard)
+    }));
+    let (airs_degrees, pc, _npc) = match r {
+        Ok(Ok(x)) => x,
+        Ok(Err(e)) => return Err(format!("{e:?}")),
+        Err(_) => return Err("panic in get_airs_and_degrees_with_prep".into()),
+    };
+    parts.push(("table_columns".into(), fnv(&format!("{pc:?}"))));
+    let (airs, degs): (Vec<_>, Vec<usize>) = airs_degrees.into_iter().unzip();
+    let kinds: Vec<&str> = airs
+        .iter()
+        .map(|a| match a {
+            p3_circuit_prover::common::CircuitTableAir::Const(_) => "Const",
+            p3_circuit_prover::common::CircuitTableAir::Public(_) => "Public",
+            p3_circuit_prover::common::CircuitTableAir::Alu(_) => "Alu",
+            p3_circuit_prover::common::CircuitTableAir::Dynamic(_) => "Dynamic",
+        })
+        .collect();
+    parts.push(("table_order_and_degrees".into(), fnv(&format!("{kinds:?}{degs:?}"))));
+    let cfg = config::baby_bear();
+    let pd = catch_unwind(AssertUnwindSafe(|| ProverData::from_airs_and_degrees(&cfg, &airs, &degs))).map_err(|_| "panic in ProverData".to_string())?;
+    let commit = pd.common.preprocessed.as_ref().map(|g| format!("{:?}|{:?}", g.commitment, g.matrix_to_instance)).unwrap_or_default();
+    parts.push(("preprocessed_commitment".into(), fnv(&commit)));
+    let all = fnv(&format!("{parts:?}"));
+    Ok((all, parts))
 }
